@@ -1366,7 +1366,7 @@ def _handle_group_stage(in_collection, unused_database, options):
         sorted_collection = sorted(in_collection, key=_sort_key_getter)
         grouped = itertools.groupby(sorted_collection, _key_getter)
     else:
-        grouped = [(None, in_collection)]
+        grouped = [(None, in_collection)] if in_collection else []
 
     for doc_id, group in grouped:
         group_list = ([x for x in group])
